@@ -280,6 +280,8 @@ def history_batch(args):
 def run(ctx: Ctx) -> None:
     thorough = ctx.tier == "thorough"
     rnd = random.Random(ctx.seed)
+    from . import jwkheap
+    jwkheap.run(ctx, "C14")             # kids of keys built over shared caller dictionaries (JwkHeap.tla)
     rs = ctx.tlc_many([("KeySel", "KeySel_jws", {"timeout": 900}), ("KeySel", "KeySel_jwe", {"timeout": 900})])
     ctx.tlc_many([("KeySel", "KeySel_dev_" + d, {"timeout": 600, "expect_violation": True})
                   for d in ("FallbackFirstKey", "UnprotectedKidIgnored", "PickAnyType", "ShortcutAnySize", "KidNotRecorded")])
@@ -360,6 +362,9 @@ def run(ctx: Ctx) -> None:
 def replay(ctx: Ctx, rec: dict) -> None:
     from .common import _pool_init
     _pool_init()
+    if rec.get("heap"):
+        from . import jwkheap
+        return jwkheap.replay(ctx, rec)
     o = run_scn((rec["scenario"], 0))
     print(json.dumps(rec["scenario"]), "\nobserved now:", o)
     if o["outcome"].split(":")[0] not in rec.get("allowed", [o["outcome"].split(":")[0]]) or "->" in rec["signature"] and o.get("ref_ok") is False:
